@@ -44,6 +44,8 @@ func c01wpaths() []c01wpath {
 		for _, f1 := range c01wFilters {
 			out = append(out, c01wpath{n, []string{f1}, nil, false, ""})
 			out = append(out, c01wpath{n, []string{f1}, nil, false, "same-client-id-in-other-tenant"})
+			// the message recorder (tap) is slower than the publisher: a burst of 48 publishes while it takes 1 s per message
+			out = append(out, c01wpath{n, []string{f1}, nil, false, "slow-message-recorder"})
 			if n == 2 {
 				out = append(out, c01wpath{n, []string{f1}, nil, false, "peer-update"})
 				// nothing else ever happens on the publisher's node: no session subscribes there, no subscription is created
@@ -198,10 +200,21 @@ func TestC01Wire(t *testing.T) {
 					viol("c01-wire-session-ended", "after %q the broker ended the subscribed session", p.Env)
 					return
 				}
-				for k, tp := range c01wTopics {
-					pub.Publish(tp, fmt.Sprintf("p%d", k), 0, false, 0)
-					w.Step()
+				rounds := 1
+				if p.Env == "slow-message-recorder" {
+					rounds = 8
+					w.SlowTap(time.Second)
 				}
+				for r := 0; r < rounds; r++ {
+					for k, tp := range c01wTopics {
+						pub.Publish(tp, fmt.Sprintf("p%d", k), 0, false, 0)
+						if rounds == 1 {
+							w.Step()
+						}
+					}
+				}
+				w.Step()
+				w.SlowTap(0)
 				w.Idle(2 * time.Second)
 				Observe(w, rep)
 				matchesSeen := false
@@ -224,6 +237,7 @@ func TestC01Wire(t *testing.T) {
 					if want > 0 {
 						matchesSeen = true
 					}
+					want *= rounds
 					if got := count(s1); got != want {
 						sig := "c01-wire-missing"
 						if got > want {
@@ -238,6 +252,7 @@ func TestC01Wire(t *testing.T) {
 							want2++
 						}
 					}
+					want2 *= rounds
 					if got := count(s2); got != want2 {
 						viol("c01-wire-other-session", "topic %q: the other session (filters +/b, #) received %d copies, expected %d", tp, got, want2)
 						return
